@@ -405,7 +405,7 @@ struct EditDef {
 /// Incremental edits of `main.oal`: the single-range replacements between menu texts.
 /// Each is an event of its own: it is applied to whatever the current text is (the client
 /// model says what the result is), so it also lands past the end of lines / of the text.
-const MAIN_EDITS: [EditDef; 7] = [
+const MAIN_EDITS: [EditDef; 8] = [
     // M0 -> M1 (and M4 -> unbound name on a CRLF text): creates an unbound name
     EditDef { name: "unbind", range: (1, 19, 1, 20), text: "zz" },
     // M1 -> M0: repairs it
@@ -420,6 +420,9 @@ const MAIN_EDITS: [EditDef; 7] = [
     EditDef { name: "append-semicolon", range: (9, 0, 9, 0), text: ";" },
     // on M4: deletion spanning a CRLF line break, multi-byte characters before the edit point
     EditDef { name: "delete-import-line", range: (0, 10, 1, 0), text: "" },
+    // on M0 / M1: the line break becomes a blank, so every later byte offset stays what it was
+    // while its line and column change
+    EditDef { name: "join-lines", range: (0, 17, 1, 0), text: " " },
 ];
 
 const MOD_EDITS: [EditDef; 6] = [
